@@ -5,7 +5,9 @@ ValsQuick     == {-1, 0, 2}
 ValsThorough  == {-46000, -1, 0, 2, 3}            \* zero, negative, extreme
 ValsTiny      == {0, 2}
 KindsCore     == {"plain", "opt", "optref", "masked", "mref"}
-KindsAll      == {"plain", "int", "opt", "optref", "optcr", "optvr", "masked", "mref"}
+KindsAll      == {"plain", "int", "opt", "optref", "optcr", "optvr", "optbr", "masked", "mref"}
+KindsMCDeep   == {"plain", "int", "opt", "optref", "optcr", "optvr", "masked", "mref"}   \* the multi-step BFS of the thorough tier (as in round 2)
+KindsBits     == {"plain", "opt", "optbr"}             \* the proxy-flag closure beside a value closure and a scalar
 KindsDouble   == {"dplain", "dopt", "dmasked", "plain"}    \* (plain: the idle registers of the canonical form)
 (* doubles: small integers, NaN (NaNv) and indices into the harness's table of remarkable doubles:           *)
 (* 1000000 = 0.5, 1000004 = 0.1, 1000006 = 1e308, 1000016 = +inf, 1000017 = -inf, 1000018 = -0.0                 *)
@@ -30,7 +32,7 @@ QuickClasses  == LiftedClasses \cup {"assign", "alias"}     \* (every kind is al
 AliasClasses  == LiftedClasses \cup {"access", "assign"}
 EveryHow      == LoadHows
 (* multi-step exploration: one construction per kind (the others are enumerated one call at a time, Lifted_s2c_house) *)
-FewHows       == {"plain", "opt2", "optref", "optvr", "masked2", "mref", "mo2", "po2"}
+FewHows       == {"plain", "opt2", "optref", "optvr", "optbr", "masked2", "mref", "mo2", "po2"}
 EveryFun      == AllFuns
 (* one or two representatives of every macro family: the toy algebra treats the names of a family alike *)
 FewFuns       == {"pos", "neg", "lognot", "abs", "isnan", "plus", "div", "mod", "bxor", "land", "lt", "pow", "fma",
